@@ -15,7 +15,7 @@ use kurbo::{BezPath, CubicBez, Line, ParamCurve, ParamCurveArclen, PathSeg, Poin
 use std::sync::OnceLock;
 
 pub fn prop() -> Prop {
-    Prop { id: "C03", corr, laws, extra, law_budget: (300, 12000) }
+    Prop { id: "C03", corr, laws, extra, law_budget: (400, 40000) }
 }
 
 // ------------------------------------------------------------------ reference integrator
@@ -279,6 +279,15 @@ fn rule_tag(c: &CubicBez, acc: f64, depth: usize) -> &'static str {
     }
 }
 
+/// is the cap of the estimate of rule k (0: 8-point, 1: 16-point, 2: 24-point) active for this `est`?
+fn cap_active(est: f64, k: usize) -> bool {
+    match k {
+        0 => !(est.powi(3) * 2.5e-6 < 3e-2),
+        1 => !(est.powi(6) * 1.5e-11 < 9e-3),
+        _ => !(est.powi(9) * 3.5e-16 < 3.5e-3),
+    }
+}
+
 fn quad_tag(q: &QuadBez) -> &'static str {
     let d2 = q.p0.to_vec2() - 2.0 * q.p1.to_vec2() + q.p2.to_vec2();
     let a = d2.hypot2();
@@ -403,8 +412,15 @@ fn gen_quad_class(r: &mut Rng) -> (QuadBez, &'static str) {
     let jit = |p: Point, r: &mut Rng| Point::new(p.x + e * r.uniform(-1.0, 1.0), p.y + e * r.uniform(-1.0, 1.0));
     match r.below(10) {
         0 => {
-            let m = l(r.uniform(0.2, 0.8));
-            (QuadBez::new(a, jit(m, r), b), "near-straight")
+            // gently curved: |p0 - 2 p1 + p2|^2 / |p1 - p0|^2 log-uniform across the near-straight
+            // threshold 5e-4 of QuadBez::arclen (the 3-point rule is only good below it)
+            let ratio = log_uniform(r, 1e-5, 0.3);
+            let d = Point::new(b.x - a.x, b.y - a.y);
+            let len = (d.x * d.x + d.y * d.y).sqrt().max(1e-9);
+            // p1 = midpoint + h * normal: a = 4 h^2, c ~ len^2 / 4
+            let h = 0.25 * len * ratio.sqrt();
+            let m = l(0.5);
+            (QuadBez::new(a, Point::new(m.x - h * d.y / len, m.y + h * d.x / len), b), "near-straight")
         }
         1 => {
             let m = l(r.uniform(-2.0, 3.0));
@@ -472,8 +488,56 @@ fn gpt(r: &mut Rng) -> Point {
     Point::new(r.generic(-2, 3), r.generic(-2, 3))
 }
 
+/// Shadow run of the provided `inv_arclen` (same closure, same `solve_itp`) that records the brackets:
+/// returns (result, true if some evaluation of the loop test `b - a > 2 epsilon` was within 1e-9 relative
+/// of equality).  ITP keeps the bracket at exactly the largest admissible width whenever its projection
+/// step is active, so `b - a == 2 epsilon` can hold *structurally* at the last iteration and rounding
+/// decides whether one more iteration runs; such cases are legitimate for the implementation (both answers
+/// are within epsilon) but cannot be compared with a model whose libm differs in the last bit.
+fn inv_arclen_shadow(s: &PathSeg, target: f64, accuracy: f64) -> (f64, bool) {
+    let total = s.arclen(accuracy);
+    if target <= 0.0 {
+        return (0.0, false);
+    }
+    if target >= total {
+        return (1.0, false);
+    }
+    let mut t_last = 0.0;
+    let mut arclen_last = 0.0;
+    let epsilon = accuracy / total;
+    let n = 1.0 - epsilon.log2().ceil().min(0.0);
+    let inner = accuracy / n;
+    let mut evals: Vec<(f64, f64)> = Vec::new();
+    let f = |t: f64| {
+        let (range, dir) = if t > t_last { (t_last..t, 1.0) } else { (t..t_last, -1.0) };
+        let arc = s.subsegment(range).arclen(inner);
+        arclen_last += arc * dir;
+        t_last = t;
+        evals.push((t, arclen_last - target));
+        arclen_last - target
+    };
+    let r = kurbo::common::solve_itp(f, 0.0, 1.0, epsilon, 1, 0.2, -target, total - target);
+    let (mut a, mut b) = (0.0f64, 1.0f64);
+    let mut knife = false;
+    let mut test = |a: f64, b: f64| {
+        if ((b - a) - 2.0 * epsilon).abs() <= 1e-9 * epsilon {
+            knife = true;
+        }
+    };
+    test(a, b);
+    for (x, y) in evals {
+        if y > 0.0 {
+            b = x;
+        } else if y < 0.0 {
+            a = x;
+        }
+        test(a, b);
+    }
+    (r, knife)
+}
+
 fn corr(r: &mut Rng, thorough: bool, o: &mut Out) {
-    let n = if thorough { 1500 } else { 140 };
+    let n = if thorough { 3000 } else { 160 };
     let max_work: u64 = if thorough { 3000 } else { 400 };
     // ---- lines (op 1, 2)
     for i in 0..n {
@@ -504,10 +568,13 @@ fn corr(r: &mut Rng, thorough: bool, o: &mut Out) {
         let l = |t: f64| Point::new(a.x + t * (b.x - a.x), a.y + t * (b.y - a.y));
         let q = match i % 8 {
             0 => {
-                // near-straight: control point close to the chord
-                let m = l(r.uniform(0.495, 0.505));
-                let e = log_uniform(r, 1e-6, 1e-2);
-                QuadBez::new(a, Point::new(m.x + e * r.uniform(-1.0, 1.0), m.y + e * r.uniform(-1.0, 1.0)), b)
+                // gently curved, across the near-straight threshold: a / c log-uniform in [1e-6, 0.1]
+                let ratio = log_uniform(r, 1e-6, 0.1);
+                let d = Point::new(b.x - a.x, b.y - a.y);
+                let len = (d.x * d.x + d.y * d.y).sqrt();
+                let h = 0.25 * len * ratio.sqrt();
+                let m = l(0.5);
+                QuadBez::new(a, Point::new(m.x - h * d.y / len, m.y + h * d.x / len), b)
             }
             1 => {
                 // sharp kink: exactly collinear fold-back on an axis at unit scale (ba_c2 is rounding noise << 1e-13)
@@ -585,6 +652,7 @@ fn corr(r: &mut Rng, thorough: bool, o: &mut Out) {
     // ---- inv_arclen (op 7 concrete provided method with the work counter, op 8 PathSeg dispatch)
     let mut done = 0;
     let mut tries = 0;
+    let mut knife_edge = 0;
     while done < n && tries < 20 * n {
         tries += 1;
         let s = match r.below(3) {
@@ -612,6 +680,11 @@ fn corr(r: &mut Rng, thorough: bool, o: &mut Out) {
         if w > max_work || !t.is_finite() {
             continue;
         }
+        let (t_shadow, knife) = inv_arclen_shadow(&s, target, acc);
+        if knife && t_shadow == t {
+            knife_edge += 1;
+            continue;
+        }
         done += 1;
         let enc = enc_seg(&s);
         let kind = if let PathSeg::Quad(_) = s { "quad" } else { "cubic" };
@@ -620,6 +693,10 @@ fn corr(r: &mut Rng, thorough: bool, o: &mut Out) {
             o.case(8, "pathseg-inv-arclen", with(&enc, &[target, acc]), vec![s.inv_arclen(target, acc)], tag == "itp", &format!("{}:{}", kind, tag));
         }
     }
+    o.notes.push(format!(
+        "inv-arclen correspondence: {} generated cases left out because ITP's loop test b - a > 2 epsilon sat within 1e-9 relative of equality (structural: the projection step keeps the bracket at exactly the admissible width); {} compared",
+        knife_edge, done
+    ));
     for _ in 0..n / 4 {
         let l = Line::new(gpt(r), gpt(r));
         let target = l.arclen(1e-3) * r.uniform(-0.2, 1.2);
@@ -673,6 +750,9 @@ fn slack(s: &PathSeg) -> f64 {
 fn g_seg_acc(r: &mut Rng) -> Vec<f64> {
     let s = gen_seg_class(r);
     let mut acc = gen_acc(r);
+    if matches!(s, PathSeg::Quad(_)) && r.chance(1, 2) {
+        acc = 1e-9; // the closed form ignores the accuracy: judge it at the tightest request
+    }
     // over-sample the worst case for each rule: an accuracy just above the estimate that admits it
     // (est_conservative, the unproved hypothesis of arclen_rec_budget, is judged exactly there)
     if let PathSeg::Cubic(c) = s {
@@ -712,11 +792,27 @@ fn law_accuracy(a: &[f64]) -> Option<(String, String)> {
         // estimate calls smooth, is a different violation
         let class = match s {
             PathSeg::Cubic(c) => {
-                let (est, _) = ests(&c);
-                if err <= 2.0 * bound && est >= 20.0 {
+                let (est, e) = ests(&c);
+                kurbo::verif::reset();
+                let _ = c.arclen(acc);
+                let leaf = kurbo::verif::work() == 1;
+                let rule = (0..3).find(|&k| e[k] < acc);
+                // window of the known finding: factor 2 where the cap of the estimate is active, factor 1.25
+                // for the uncapped 24-point estimate (observed 1.07); the uncapped 8- and 16-point estimates
+                // have never been seen optimistic (worst 0.73 / 0.78), so any excess there is a new violation
+                let window = match (leaf, rule) {
+                    (true, Some(k)) if cap_active(est, k) => 2.0,
+                    (true, Some(2)) if est >= 20.0 => 1.25,
+                    (true, _) => 0.0,
+                    (false, _) if est >= 20.0 => 2.0,
+                    (false, _) => 0.0,
+                };
+                if window > 0.0 && err <= window * bound {
                     "arclen-accuracy:cubic:est-optimistic".to_string()
-                } else if est >= 20.0 {
+                } else if window > 0.0 {
                     "arclen-accuracy:cubic:gross".to_string()
+                } else if leaf {
+                    "arclen-accuracy:cubic:est-uncapped".to_string()
                 } else {
                     "arclen-accuracy:cubic:smooth".to_string()
                 }
@@ -946,9 +1042,10 @@ fn extra(r: &mut Rng, thorough: bool, o: &mut Out) {
     // audit of the unproved hypothesis est_conservative: for each rule, true error of the rule / estimate,
     // at an accuracy just above the estimate (the worst case for that rule)
     let n = if thorough { 60000 } else { 4000 };
-    let mut worst = [0.0f64; 3];
-    let mut over = [0u64; 3];
-    let mut tot = [0u64; 3];
+    // index: rule (8,16,24) x (uncapped, capped)
+    let mut worst = [[0.0f64; 2]; 3];
+    let mut over = [[0u64; 2]; 3];
+    let mut tot = [[0u64; 2]; 3];
     for _ in 0..n {
         let (c, _) = gen_cubic_class(r);
         let s = PathSeg::Cubic(c);
@@ -956,7 +1053,7 @@ fn extra(r: &mut Rng, thorough: bool, o: &mut Out) {
             Some(l) => l,
             None => continue,
         };
-        let (_, e) = ests(&c);
+        let (est, e) = ests(&c);
         for k in 0..3 {
             let acc = e[k] * (1.0 + 1e-9);
             if !(acc > 1e-10 * poly_len(&s)) || (k > 0 && !(e[k - 1] >= acc)) {
@@ -964,17 +1061,19 @@ fn extra(r: &mut Rng, thorough: bool, o: &mut Out) {
             }
             let v = c.verif_arclen_rec(acc, 20);
             let rho = (v - l).abs() / (acc + slack(&s));
-            tot[k] += 1;
+            let cp = cap_active(est, k) as usize;
+            tot[k][cp] += 1;
             if rho > 1.0 {
-                over[k] += 1;
+                over[k][cp] += 1;
             }
-            if rho > worst[k] {
-                worst[k] = rho;
+            if rho > worst[k][cp] {
+                worst[k][cp] = rho;
             }
         }
     }
     o.notes.push(format!(
-        "est_conservative audit (testing): true error / estimate of the 8/16/24-point rule over {} cubics: worst {:.3}/{:.3}/{:.3}; above 1 in {}/{}/{} of {}/{}/{} applicable",
-        n, worst[0], worst[1], worst[2], over[0], over[1], over[2], tot[0], tot[1], tot[2]
+        "est_conservative audit (testing): true error / estimate of the 8/16/24-point rule at the accuracy that just admits it, over {} cubics. Estimate uncapped: worst {:.3}/{:.3}/{:.3}, above 1 in {}/{}/{} of {}/{}/{}. Estimate capped (min(.., 3e-2/9e-3/3.5e-3) active): worst {:.3}/{:.3}/{:.3}, above 1 in {}/{}/{} of {}/{}/{}",
+        n, worst[0][0], worst[1][0], worst[2][0], over[0][0], over[1][0], over[2][0], tot[0][0], tot[1][0], tot[2][0],
+        worst[0][1], worst[1][1], worst[2][1], over[0][1], over[1][1], over[2][1], tot[0][1], tot[1][1], tot[2][1]
     ));
 }
